@@ -100,13 +100,19 @@ def gen_routes():
             raise TranslateError('respond: arm %s does not answer with the looked-up bytes' % k)
         arm_rows.append((k, cachev, int(st_poison), int(st_missing), m.group(3)))
     # signature: fn respond(rx, meshes: MeshCache, images: ImageCache, audios: AudioCache, max_size: usize)
-    sig = re.search(r'fn\s+respond\(\s*rx:\s*Receiver<Request>,\s*meshes:\s*MeshCache,\s*images:\s*ImageCache,\s*audios:\s*AudioCache,\s*(\w+):\s*usize', t)
+    sig = re.search(r'fn\s+respond\(\s*rx:\s*Arc<Mutex<Receiver<Request>>>,\s*meshes:\s*MeshCache,\s*images:\s*ImageCache,\s*audios:\s*AudioCache,\s*(\w+):\s*usize', t)
     if not sig:
         raise TranslateError('respond: signature changed')
     # which cache each class reads must be the cache serve_<class> writes
     cache_param = {'Mesh': 'meshes', 'Image': 'images', 'Audio': 'audios'}
     # the call site passes clones of self.meshes/images/audios in that order
-    call = re.search(r'let\s+meshes\s*=\s*result\.meshes\.clone\(\);\s*let\s+images\s*=\s*result\.images\.clone\(\);\s*let\s+audios\s*=\s*result\.audios\.clone\(\);.*?Self::respond\(server_rx,\s*meshes,\s*images,\s*audios,\s*max_transfer\)', t, re.S)
+    call = re.search(r'for\s+_\s+in\s+0\.\.RESPONDERS\s*\{\s*let\s+server_rx\s*=\s*server_rx\.clone\(\);\s*let\s+meshes\s*=\s*result\.meshes\.clone\(\);\s*let\s+images\s*=\s*result\.images\.clone\(\);\s*let\s+audios\s*=\s*result\.audios\.clone\(\);.*?Self::respond\(server_rx,\s*meshes,\s*images,\s*audios,\s*max_transfer\)', t, re.S)
+    # every responder takes one request at a time from the shared queue and handles it to the end
+    if not re.search(r'loop\s*\{\s*let\s+Ok\(request\)\s*=\s*rx\.lock\(\)\.map_err\(\|_\|\s*\(\)\)\.and_then\(\|rx\|\s*rx\.recv\(\)\.map_err\(\|_\|\s*\(\)\)\)\s*else\s*\{\s*break;\s*\};\s*let\s+url\s*=\s*request\.url\(\);', resp):
+        raise TranslateError('respond: the request loop is not in the expected shape')
+    nresp = re.search(r'const\s+RESPONDERS:\s*usize\s*=\s*(\d+);', t)
+    if not nresp or int(nresp.group(1)) < 2:
+        raise TranslateError('new: fewer than two responder threads')
     if not call:
         raise TranslateError('new: responder is not started with (meshes, images, audios, max_transfer)')
     serve_rows = []
